@@ -640,3 +640,15 @@ package cache
 //@   nosafety all pre
 //@   assert at store cache.ResponseWriter.requestTreeBypassesSharedDenial#1: value == lastret("middleware/cache.sharedDenialBypass")
 //@   assert at call middleware/cache.sharedDenialBypass#1: calls("middleware/cache.sharedDenialBypass") == 0
+//@
+//@ # ---- C06: the byte-serving verdict of a cached body. The "has DNSSEC records" flag - which decides whether a DO=0 /
+//@ # no-EDNS client gets the stripped body - is raised by EVERY RRSIG/NSEC/NSEC3 record of the ANSWER and AUTHORITY
+//@ # sections (a signed NXDOMAIN/NODATA/referral has them only in authority): once such a record has been parsed the
+//@ # flag is set, and it stays set
+//@ func prepareWireServe
+//@   arith bv
+//@   abstract
+//@   nosafety all pre
+//@   loop 1 invariant 0 <= i && i <= 200000
+//@   loop 1 invariant i > 0 && i - 1 < answered && lastret("internal/wire.ParseRR", 1) && (lastret("internal/wire.ParseRR").Type == dns.TypeRRSIG || lastret("internal/wire.ParseRR").Type == dns.TypeNSEC || lastret("internal/wire.ParseRR").Type == dns.TypeNSEC3) ==> flags & wireHasDNSSEC != 0
+//@   assert at call internal/wire.ParseRR#1: arg0 == body
